@@ -2,8 +2,9 @@
 import hashlib
 
 from .core import exc_class, hx, unhx
-from .gitobj_common import (author_line_spec, date_dict, enc_date, enc_opt, gen_bytes, gen_date, gen_fullname,
-                            mk_person, mk_tstz, person_dict)
+from .gitobj_common import (LEGACY_DATE_MODES, author_line_spec, date_dict, date_dict_legacy, enc_date, enc_opt, gen_bytes,
+                            gen_bytes_wide, gen_date_wide, gen_fullname_wide, gen_id, mk_person, mk_tstz, nofullname_split,
+                            person_dict)
 
 ID = "C03"
 PROPS = "Props/C03.v"
@@ -12,48 +13,124 @@ OBLIGATION = "revision_git_object"
 REQUESTS_NEED_IMPL = True
 THEOREMS = ["C03_id_is_commit_hash", "C03_parse_partial", "C03_parse_full_refuted", "C03_manifest_injective",
             "C03_irrelevant_fields", "C03_legacy_extra_headers", "C03_post_init_keeps_manifest", "C03_presence_matrix",
-            "C03_satisfiable", "C03_author_date_exact"]
+            "C03_satisfiable", "C03_raw_manifest_precedence", "C03_attribute_wins", "C03_author_date_exact"]
 RULE = ("all 16 presence combinations of author/committer/date/committer_date (7 rejected by the validators) x 0-7 parents "
-        "(empty parent ids, repeated parents and a parent equal to the tree id included) x message {None, empty, arbitrary, trailing newline, blank lines} x 0-4 extra headers "
-        "with values {empty, leading space, multi-line, trailing newline, newline+space} and keys mostly well-formed, "
-        "sometimes exotic (space, newline, empty, reserved word: the recorded finding class) x dates over the accepted "
-        "range; headers given as the attribute or inside legacy metadata; constructor and from_dict; non-trivial = an "
-        "optional field present and a multi-line or empty value")
+        "(empty parent ids, repeated parents and a parent equal to the tree id included; ids of 20 bytes, git's null id, ids "
+        "differing from another id of the object in one byte, 1 or 32 bytes, an empty tree id; sometimes 40-60 parents) x message "
+        "{None, empty, arbitrary, trailing newline, blank lines} x 0-4 (sometimes 30-50) extra headers with values {empty, leading "
+        "space, multi-line, trailing newline, newline+space, CR / CRLF, NUL, TAB continuation, lone separators, VT/FF/FS/NEL, header "
+        "look-alikes, >100 lines, ~1 kB} and keys mostly well-formed, sometimes exotic (space, newline, empty, reserved word: the "
+        "recorded finding class) x dates over the accepted range (digit-count boundaries of seconds and microseconds); messages padded "
+        "so that the object length sits at 99/100/101, 999/1000/1001, 9999/10000; author and committer sometimes one shared object. "
+        "Headers given as the attribute (tuple / list / generator of tuples / lists), inside legacy metadata (non-empty or the empty "
+        "list), or BOTH (attribute wins, metadata keeps its key); the variant's type is any of the 7 revision types and its other "
+        "metadata comes from a pool (keys named like commit lines or Revision fields, near-misses of 'extra_headers', nested). Every "
+        "case: constructor, from_dict (lists / tuples / one-shot iterators, the same dict twice, to_dict minus id, headers in legacy "
+        "metadata with and without the attribute key, persons without fullname, legacy date dictionaries), the deprecated dict "
+        "argument (with and without id, legacy layout, stale ids), check(), second calls; per case one of: explicit id (empty / own "
+        "/ foreign: check() must refuse it), raw manifest (own manifest / empty / arbitrary), evolve there and back; "
+        "non-trivial = an optional field present and a multi-line or empty value")
 TRUSTED = ["format_date / offset bytes as modelled in model/Time.v (property C16)", "bytes join/split as modelled in lib/Headers.v",
            "lib/Sha1.v as an instance of the hash oracle (validated against hashlib on every case)"]
 ASSUMPTIONS = ["extra-header keys are non-empty, free of space/newline and not tree/parent/author/committer for the "
-               "parse/injectivity theorems (outside this class the commit format itself is ambiguous: known finding)"]
+               "parse/injectivity theorems (outside this class the commit format itself is ambiguous: known finding)",
+               "an id given explicitly to the constructor is kept as given (only check() compares it with the commit hash); a raw "
+               "manifest replaces the fields for the id only (C03_raw_manifest_precedence)",
+               "Revision.from_dict with a date given as the plain integer 0 is refused (falsy), 1 is accepted: outside the property, reported"]
 
 GOOD_KEYS = [b"gpgsig", b"mergetag", b"encoding", b"x-custom", b"HG:extra", b"a", b"\xff"]
 BAD_KEYS = [b"a b", b"", b"k\nl", b"parent", b"author", b"committer", b"tree", b" x"]
+HDR_SHAPES = ["tt", "ll", "lt", "tl", "gen"]
+REV_TYPES = ["git", "tar", "dsc", "svn", "hg", "cvs", "bzr"]
+BOUNDARY_LENGTHS = [99, 100, 101, 999, 1000, 1001, 9999, 10000]
+
+
+def _esc_len(v):
+    return len(v) + v.count(b"\n")
+
+
+def _payload_len(c):
+    """length of the commit payload for these fields, from the format's definition (used only to aim a message at a
+    length boundary; never compared with the implementation)"""
+    n = 5 + 2 * len(c["directory"]) // 2 + 1
+    for p in c["parents"]:
+        if p:
+            n += 7 + len(p) + 1
+    for who, when in (("author", "date"), ("committer", "committer_date")):
+        if c[who] is not None:
+            n += len(who) + 1 + _esc_len(author_line_spec(bytes.fromhex(c[who]), c[when])) + 1
+    for k, v in c["extra"]:
+        n += len(k) // 2 + 1 + _esc_len(bytes.fromhex(v)) + 1
+    if c["message"] is not None:
+        n += 1 + len(c["message"]) // 2
+    return n
 
 
 def gen(rng, tier):
     n_cases = 1500 if tier == "quick" else 40000
     cases = []
+    n_huge = 0
     for k in range(n_cases):
         pres = k % 16
         n_par = rng.choice([0, 1, 1, 2, 2, 3, 5])
-        parents = [bytes(rng.randrange(256) for _ in range(20)).hex() for _ in range(n_par)]
+        if rng.random() < 0.004:
+            n_par = rng.randrange(40, 60)
+        directory = gen_id(rng) if rng.random() < 0.97 else b""
+        parents = []
+        for _ in range(n_par):
+            parents.append(gen_id(rng, [directory] + parents))
+        parents = [p.hex() for p in parents]
+        directory = directory.hex()
         if parents and rng.random() < 0.1:
             parents[rng.randrange(len(parents))] = ""
-        directory = bytes(rng.randrange(256) for _ in range(20)).hex()
         if parents and rng.random() < 0.2:     # git stores repeated parents verbatim: (p, p), (p, q, p, r), a parent equal to the tree id
             for _ in range(rng.randrange(1, 3)):
                 parents.insert(rng.randrange(len(parents) + 1), rng.choice(parents + [directory]))
         n_ex = rng.choice([0, 0, 1, 2, 4])
+        if rng.random() < 0.004:
+            n_ex = rng.randrange(30, 50)
         exotic = rng.random() < 0.08
-        extra = [[(rng.choice(BAD_KEYS) if exotic and rng.random() < 0.6 else rng.choice(GOOD_KEYS)).hex(), gen_bytes(rng).hex()]
+        extra = [[(rng.choice(BAD_KEYS) if exotic and rng.random() < 0.6 else rng.choice(GOOD_KEYS)).hex(), gen_bytes_wide(rng).hex()]
                  for _ in range(n_ex)]
-        msg = rng.choice([None, b"", gen_bytes(rng), b"subject\n\nbody\n", b"\n\nx"])
-        cases.append({"message": None if msg is None else msg.hex(),
-                      "author": gen_fullname(rng).hex() if pres & 1 else None,
-                      "date": gen_date(rng) if pres & 2 else None,
-                      "committer": gen_fullname(rng).hex() if pres & 4 else None,
-                      "committer_date": gen_date(rng) if pres & 8 else None,
-                      "directory": directory,
-                      "parents": parents, "extra": extra, "legacy": rng.random() < 0.3,
-                      "synthetic": rng.random() < 0.5})
+        msg = rng.choice([None, b"", gen_bytes_wide(rng), b"subject\n\nbody\n", b"\n\nx"])
+        c = {"message": None if msg is None else msg.hex(),
+             "author": gen_fullname_wide(rng).hex() if pres & 1 else None,
+             "date": gen_date_wide(rng) if pres & 2 else None,
+             "committer": gen_fullname_wide(rng).hex() if pres & 4 else None,
+             "committer_date": gen_date_wide(rng) if pres & 8 else None,
+             "directory": directory,
+             "parents": parents, "extra": extra, "legacy": rng.random() < 0.3,
+             "synthetic": rng.random() < 0.5}
+        # ---- dimensions of the audit (absent key = the behaviour of earlier recorded cases)
+        if pres & 5 == 5 and rng.random() < 0.15:        # author and committer one shared Person (and date) object
+            c["committer"] = c["author"]
+            if pres & 10 == 10:
+                c["committer_date"] = c["date"]
+            c["share"] = True
+        c["hdr_shape"] = rng.choice(HDR_SHAPES)
+        c["legacy_empty"] = rng.random() < 0.5            # legacy route with no headers: metadata {"extra_headers": []}
+        if extra and not c["legacy"] and rng.random() < 0.3:   # BOTH routes at once: other headers inside the metadata
+            c["decoy"] = [[rng.choice(GOOD_KEYS).hex(), gen_bytes_wide(rng).hex()] for _ in range(rng.choice([0, 1, 2]))]
+        c["vtype"] = rng.choice(REV_TYPES)
+        c["vmd"] = rng.randrange(len(VMD_POOL))
+        c["vmd_val"] = gen_bytes(rng).hex()
+        x = k % 5
+        if x == 0:
+            c["id_mode"] = rng.choice(["empty", "own", "foreign"])
+        elif x == 1:
+            c["raw"] = rng.choice(["M", "", gen_bytes_wide(rng).hex(), b"commit 0\x00".hex()])
+        elif x == 2:
+            c["evolve"] = True
+        c["grp"] = (k // 16) % 3                          # which group of dictionary routes this case takes
+        c["pf"] = rng.randrange(6)                        # which (name, email) split replaces the fullname on the dict route
+        c["dl"] = rng.randrange(len(LEGACY_DATE_MODES))
+        if c["message"] is not None and rng.random() < 0.04:      # aim the object length at a digit-count boundary
+            want = rng.choice(BOUNDARY_LENGTHS[:6] if (tier == "quick" or n_huge >= 40) else BOUNDARY_LENGTHS)
+            have = _payload_len(c)
+            if have <= want:
+                c["message"] = (bytes.fromhex(c["message"]) + b"x" * (want - have)).hex()
+                n_huge += want > 2000
+        cases.append(c)
     return cases
 
 
@@ -78,8 +155,12 @@ def nontrivial(c):
 def classify(c):
     ks = ["presence=%d%d%d%d" % (c["author"] is not None, c["date"] is not None, c["committer"] is not None,
                                  c["committer_date"] is not None),
-          "parents=%d" % len(c["parents"]), "extra=%d" % len(c["extra"]),
+          "parents=%s" % (len(c["parents"]) if len(c["parents"]) < 8 else "many"),
+          "extra=%s" % (len(c["extra"]) if len(c["extra"]) < 5 else "many"),
           "msg=" + ("None" if c["message"] is None else "empty" if c["message"] == "" else "bytes")]
+    attr, meta = _md_plan(c)
+    ks.append("route=" + ("both" if attr and meta is not None else "legacy-metadata" if meta else "legacy-metadata-empty-list"
+                          if meta is not None else "attribute"))
     if c["legacy"]:
         ks.append("legacy-metadata-headers")
     if not wf_keys(c):
@@ -88,36 +169,263 @@ def classify(c):
         ks.append("empty-parent")
     if len(set(c["parents"])) < len(c["parents"]):
         ks.append("repeated-parent")
+    ids = [c["directory"]] + [p for p in c["parents"] if p]
+    if any(len(i) != 40 for i in ids):
+        ks.append("id-not-20-bytes")
+    if any(i and not i.strip("0") for i in ids):
+        ks.append("null-id")
+    if any(a != b and len(a) == len(b) and (a[:-2] == b[:-2] or a[2:] == b[2:]) for a in ids for b in ids):
+        ks.append("ids-one-byte-apart")
+    vals = _vals(c)
+    if any(b"\r" in v for v in vals):
+        ks.append("value-with-CR")
+    if any(b"\x00" in v for v in vals):
+        ks.append("value-with-NUL")
+    if any(v.count(b"\n") > 100 for v in vals):
+        ks.append("value>100-lines")
+    for k in ("id_mode", "raw", "evolve", "share"):
+        if c.get(k) is not None:
+            ks.append("%s=%s" % (k, c[k] if k == "id_mode" else "M" if c[k] == "M" else "empty" if c[k] == "" else "yes"))
+    try:
+        n = _payload_len(c)
+        if n in BOUNDARY_LENGTHS:
+            ks.append("object-length=%d" % n)
+    except Exception:
+        pass
     return ks
+
+
+# "other metadata" of the variant: never takes part in the id.  No pool entry has a top-level "extra_headers" key (that IS
+# the legacy location of the headers); near-misses of it, nested occurrences and keys named like commit lines are there.
+VMD_POOL = [lambda v: {"other": "x", "n": [1, 2]},
+            lambda v: {"gpgsig": v, "parent": v, "tree": v, "author": v, "committer": v, "message": v, "encoding": "x"},
+            lambda v: {"extra-headers": [[b"k", v]], "extra_headers ": [[b"k", v]], "Extra_Headers": [[b"k", v]], "extra_header": [[b"k", v]]},
+            lambda v: {"nested": {"extra_headers": [[b"gpgsig", v]]}, "l": [{"extra_headers": [[b"k", v]]}]},
+            lambda v: {"original_artifact": [{"sha1": v.hex(), "length": len(v)}], "raw_manifest": v, "id": v, "parents": [v], "directory": v},
+            lambda v: {"date": {"timestamp": {"seconds": 1, "microseconds": 0}, "offset_bytes": b"+0000"}, "committer_date": None,
+                       "type": "git", "synthetic": True},
+            lambda v: {}]
+
+
+def _md_plan(c):
+    """(headers given as the attribute, headers given inside metadata['extra_headers'] or None when the key is absent)"""
+    extra = c["extra"]
+    if c["legacy"]:
+        if extra:
+            return [], extra
+        return [], ([] if c.get("legacy_empty") else None)
+    if extra and c.get("decoy") is not None:
+        return extra, c["decoy"]
+    return extra, None
+
+
+def _pairs(hs):
+    return [(bytes.fromhex(k), bytes.fromhex(v)) for k, v in hs]
+
+
+def _shape(pairs, shape):
+    if shape == "ll":
+        return [[k, v] for k, v in pairs]
+    if shape == "lt":
+        return [(k, v) for k, v in pairs]
+    if shape == "tl":
+        return tuple([k, v] for k, v in pairs)
+    if shape == "gen":
+        return ([k, v] for k, v in pairs)       # one-shot
+    return tuple((k, v) for k, v in pairs)
 
 
 def _kwargs(c, variant=0, legacy=None):
     """constructor keyword arguments exactly as a caller would give them (legacy: the extra
     headers inside metadata, the attribute left empty)"""
     from swh.model.model import RevisionType
-    legacy = c["legacy"] if legacy is None else legacy
-    extra = tuple((bytes.fromhex(k), bytes.fromhex(v)) for k, v in c["extra"])
+    if legacy is None:
+        attr, meta = _md_plan(c)
+        shape = c.get("hdr_shape", "tt")
+    else:               # the other of the two plain routes
+        attr, meta = ([], c["extra"]) if (legacy and c["extra"]) else (c["extra"], None)
+        shape = "tt"
     md = None
-    if legacy and extra:
-        md = {"extra_headers": [[k, v] for k, v in extra]}
+    if meta is not None:
+        md = {"extra_headers": _shape(_pairs(meta), "ll" if shape in ("gen", "tt") else shape)}
     if variant == 1:
-        md = dict(md or {}, other="x", n=[1, 2])
+        md = dict(md or {}, **VMD_POOL[c.get("vmd", 0)](bytes.fromhex(c.get("vmd_val", ""))))
+        if c.get("vmd", 0) % 2:
+            from swh.model.collections import ImmutableDict
+            md = ImmutableDict(md)
+    author, date = mk_person(c["author"], variant), mk_tstz(c["date"])
+    if c.get("share") and c["committer"] is not None and c["committer"] == c["author"]:
+        committer, committer_date = author, (date if c["committer_date"] == c["date"] else mk_tstz(c["committer_date"]))
+    else:
+        committer, committer_date = mk_person(c["committer"], variant), mk_tstz(c["committer_date"])
     return dict(message=None if c["message"] is None else bytes.fromhex(c["message"]),
-                author=mk_person(c["author"], variant), committer=mk_person(c["committer"], variant),
-                date=mk_tstz(c["date"]), committer_date=mk_tstz(c["committer_date"]),
-                type=RevisionType.GIT if variant == 0 else RevisionType.MERCURIAL,
+                author=author, committer=committer, date=date, committer_date=committer_date,
+                type=RevisionType.GIT if variant == 0 else RevisionType(c.get("vtype", "hg")),
                 directory=bytes.fromhex(c["directory"]),
                 synthetic=c["synthetic"] if variant == 0 else not c["synthetic"],
                 metadata=md, parents=tuple(bytes.fromhex(p) for p in c["parents"]),
-                extra_headers=() if (legacy and extra) else extra)
+                extra_headers=_shape(_pairs(attr), shape))
 
 
-def _build(c, variant=0, legacy=None):
+def _build(c, variant=0, legacy=None, **over):
     from swh.model.model import Revision
-    return Revision(**_kwargs(c, variant, legacy))
+    return Revision(**dict(_kwargs(c, variant, legacy), **over))
 
 
 _LAST_ID = [b"\x02" * 20]
+
+
+def _from_dict_base(c):
+    return {"message": None if c["message"] is None else bytes.fromhex(c["message"]),
+            "author": person_dict(c["author"]), "committer": person_dict(c["committer"]),
+            "date": date_dict(c["date"]), "committer_date": date_dict(c["committer_date"]), "type": "git",
+            "directory": bytes.fromhex(c["directory"]), "synthetic": c["synthetic"], "metadata": None,
+            "parents": [bytes.fromhex(p) for p in c["parents"]],
+            "extra_headers": [[bytes.fromhex(k), bytes.fromhex(v)] for k, v in c["extra"]]}
+
+
+def _wide_routes(c, r, res):
+    """the routes added by the audit.  same_id / same_manifest: {route: value} that must equal the id / manifest of the
+    plainly constructed revision; notes: [violated statement]"""
+    import warnings
+    from swh.model import git_objects
+    from swh.model.model import Person, Revision
+    same_id, same_man, notes = {}, {}, []
+    res["same_id"], res["same_manifest"], res["notes"] = same_id, same_man, notes
+    man = bytes.fromhex(res["manifest"])
+
+    def route(table, name, f):
+        try:
+            table[name] = f()
+        except Exception as e:
+            table[name] = "error:" + exc_class(e)
+
+    # ---- the finished object, asked again
+    route(same_man, "revision_git_object(r), second call", lambda: git_objects.revision_git_object(r).hex())
+    route(same_id, "compute_hash(), second call", lambda: r.compute_hash().hex())
+    try:
+        r.check()
+    except Exception as e:
+        notes.append("check() refuses the constructed revision: " + exc_class(e))
+    # ---- explicit id / raw manifest / evolve (one per case)
+    mode = c.get("id_mode")
+    try:
+        if mode == "empty":
+            same_id["constructor with id=b''"] = _build(c, id=b"").id.hex()
+        elif mode == "own":
+            r2 = _build(c, id=r.id)
+            same_id["constructor with its own id"] = r2.id.hex()
+            same_man["object built with its own id"] = git_objects.revision_git_object(r2).hex()
+            r2.check()
+        elif mode == "foreign":
+            foreign = r.id[:-1] + bytes([r.id[-1] ^ 1])
+            r2 = _build(c, id=foreign)
+            same_id["compute_hash() of an object built with a foreign id"] = r2.compute_hash().hex()
+            same_man["object built with a foreign id"] = git_objects.revision_git_object(r2).hex()
+            if r2.id != foreign:
+                notes.append("an explicitly given id is not kept")
+            try:
+                r2.check()
+                notes.append("check() accepts an id that is not the SHA-1 of the commit object")
+            except ValueError:
+                pass
+    except Exception as e:
+        notes.append("explicit id (%s): %s" % (mode, exc_class(e)))
+    if c.get("raw") is not None:
+        try:
+            raw = man if c["raw"] == "M" else bytes.fromhex(c["raw"])
+            rr = _build(c, raw_manifest=raw)
+            res["raw_id"] = rr.id.hex()
+            same_man["object carrying a raw manifest"] = git_objects.revision_git_object(rr).hex()
+            if rr.compute_hash() != rr.id:
+                notes.append("compute_hash() of an object carrying a raw manifest differs from its id")
+        except Exception as e:
+            res["raw_id"] = "error:" + exc_class(e)
+    if c.get("evolve"):
+        try:
+            m0 = None if c["message"] is None else bytes.fromhex(c["message"])
+            m2 = b"evolved\n" if m0 != b"evolved\n" else None
+            e = r.evolve(message=m2)
+            if e.id != _build(c, message=m2).id or e.id != hashlib.sha1(git_objects.revision_git_object(e)).digest():
+                notes.append("evolve(message=...) does not give the id of the commit with the new message")
+            same_id["evolve(message) there and back"] = e.evolve(message=m0).id.hex()
+            e = r.evolve(parents=(), extra_headers=())
+            attr, meta = _md_plan(c)
+            both = bool(attr) and meta is not None     # the metadata still holds other headers: they come back, by the same rule
+            if e.id != hashlib.sha1(git_objects.revision_git_object(e)).digest() or (not both and e.id != _build(c, parents=(), extra_headers=(), metadata=None).id):
+                notes.append("evolve(parents=(), extra_headers=()) does not give the id of the commit without them")
+            same_id["evolve(parents, extra_headers) there and back"] = e.evolve(parents=r.parents, extra_headers=r.extra_headers).id.hex()
+        except Exception as e:
+            notes.append("evolve: " + exc_class(e))
+    # ---- dictionary routes (one group of them per case: c["grp"]; all of them for a case that does not say)
+    d = _from_dict_base(c)
+    pairs = d["extra_headers"]
+    keys0 = sorted(d)
+    grp = c.get("grp")
+    if grp in (None, 0):
+        _routes_shapes(c, r, d, pairs, same_id, route)
+        if sorted(d) != keys0:
+            notes.append("from_dict removed keys from the dictionary it was given")
+    if grp in (None, 1):
+        _routes_layouts(c, r, d, pairs, same_id, same_man, route)
+    if grp in (None, 2):
+        _routes_legacy_values(c, d, same_id, notes, route)
+
+
+def _routes_shapes(c, r, d, pairs, same_id, route):
+    from swh.model.model import Revision
+    route(same_id, "from_dict, the same dict a second time", lambda: Revision.from_dict(d).id.hex())
+    route(same_id, "from_dict with tuples", lambda: Revision.from_dict(
+        dict(d, parents=tuple(d["parents"]), extra_headers=tuple((k, v) for k, v in pairs))).id.hex())
+    route(same_id, "from_dict with one-shot iterators", lambda: Revision.from_dict(
+        dict(d, parents=iter(d["parents"]), extra_headers=((k, v) for k, v in pairs))).id.hex())
+    route(same_id, "from_dict with type=%s, the other synthetic flag, id=b''" % c.get("vtype", "hg"), lambda: Revision.from_dict(
+        dict(d, type=c.get("vtype", "hg"), synthetic=not c["synthetic"], id=b"")).id.hex())
+
+
+def _routes_layouts(c, r, d, pairs, same_id, same_man, route):
+    import warnings
+    from swh.model import git_objects
+    from swh.model.model import Revision
+    route(same_id, "from_dict(to_dict() without id)", lambda: Revision.from_dict(
+        {k: v for k, v in r.to_dict().items() if k != "id"}).id.hex())
+    route(same_id, "from_dict(to_dict())", lambda: Revision.from_dict(r.to_dict()).id.hex())
+    d_legacy = dict(d, extra_headers=[], metadata={"extra_headers": [[k, v] for k, v in pairs], "x": 1})
+    d_legacy_nokey = {k: v for k, v in d_legacy.items() if k != "extra_headers"}
+    route(same_id, "from_dict, headers inside legacy metadata", lambda: Revision.from_dict(d_legacy).id.hex())
+    route(same_id, "from_dict, headers inside legacy metadata, no extra_headers key", lambda: Revision.from_dict(d_legacy_nokey).id.hex())
+    with warnings.catch_warnings():
+        warnings.simplefilter("ignore")
+        route(same_man, "revision_git_object(<dict without id>)", lambda: git_objects.revision_git_object(d).hex())
+        route(same_man, "revision_git_object(<dict, legacy metadata layout>)", lambda: git_objects.revision_git_object(d_legacy_nokey).hex())
+
+
+def _routes_legacy_values(c, d, same_id, notes, route):
+    from swh.model.model import Person, Revision
+    # persons given WITHOUT a fullname: the documented rule builds it from name and email
+    if c.get("pf") is not None and (c["author"] is not None or c["committer"] is not None):
+        try:
+            dd, over = dict(d), {}
+            for who in ("author", "committer"):
+                if c[who] is not None:
+                    name, email, fn = nofullname_split(bytes.fromhex(c[who]), c["pf"] + (who == "committer"))
+                    dd[who] = {"name": name, "email": email}
+                    over[who] = Person(fullname=fn, name=name, email=email)
+            if Revision.from_dict(dd).id != _build(c, **over).id:
+                notes.append("from_dict with persons given as {name, email} without fullname: the id is not the commit id of the "
+                             "documented fullname ('name', '<email>' or 'name <email>')")
+        except Exception as e:
+            notes.append("from_dict with persons given as {name, email}: " + exc_class(e))
+    # dates in the older dictionary encodings
+    if c.get("dl") is not None and (c["date"] is not None or c["committer_date"] is not None):
+        mode = LEGACY_DATE_MODES[c["dl"] % len(LEGACY_DATE_MODES)]
+        dd, used = dict(d), False
+        for when in ("date", "committer_date"):
+            ld = date_dict_legacy(c[when], mode)
+            if ld is not None:
+                dd[when], used = ld, True
+        if used:
+            route(same_id, "from_dict, dates in the '%s' encoding" % mode, lambda: Revision.from_dict(dd).id.hex())
 
 
 def impl(c):
@@ -130,6 +438,8 @@ def impl(c):
     res = {"id": r.id.hex(), "manifest": git_objects.revision_git_object(r).hex(), "swhid": str(r.swhid()),
            "extra_attr": [[k.hex(), v.hex()] for k, v in r.extra_headers],
            "meta_has_extra": bool(r.metadata and "extra_headers" in r.metadata),
+           "meta_extra": [[bytes(k).hex(), bytes(v).hex()] for k, v in r.metadata["extra_headers"]]
+           if (r.metadata and "extra_headers" in r.metadata) else None,
            "compute_hash": r.compute_hash().hex()}
     try:
         import warnings
@@ -156,15 +466,13 @@ def impl(c):
         except Exception as e:
             res[name] = "error:" + exc_class(e)
     try:
-        d = {"message": None if c["message"] is None else bytes.fromhex(c["message"]),
-             "author": person_dict(c["author"]), "committer": person_dict(c["committer"]),
-             "date": date_dict(c["date"]), "committer_date": date_dict(c["committer_date"]), "type": "git",
-             "directory": bytes.fromhex(c["directory"]), "synthetic": c["synthetic"], "metadata": None,
-             "parents": [bytes.fromhex(p) for p in c["parents"]],
-             "extra_headers": [[bytes.fromhex(k), bytes.fromhex(v)] for k, v in c["extra"]]}
-        res["id_from_dict"] = Revision.from_dict(d).id.hex()
+        res["id_from_dict"] = Revision.from_dict(_from_dict_base(c)).id.hex()
     except Exception as e:
         res["id_from_dict"] = "error:" + exc_class(e)
+    try:
+        _wide_routes(c, r, res)
+    except Exception as e:
+        res.setdefault("notes", []).append("the added routes crashed: " + exc_class(e))
     return res
 
 
@@ -172,13 +480,19 @@ def enc_headers(hs):
     return "|".join(hx(bytes.fromhex(k)) + ":" + hx(bytes.fromhex(v)) for k, v in hs) if hs else "."
 
 
+def _raw_hex(c, ires):
+    raw = c.get("raw")
+    if raw == "M":
+        return ires.get("manifest")
+    return raw
+
+
 def requests(c, ires):
-    ex = enc_headers(c["extra"])
-    legacy = c["legacy"] and c["extra"]
+    attr, meta = _md_plan(c)
     r = [" ".join(["rev", enc_opt(c["message"]), enc_opt(c["author"]), enc_date(c["date"]), enc_opt(c["committer"]),
                    enc_date(c["committer_date"]), hx(bytes.fromhex(c["directory"])),
                    ",".join(hx(bytes.fromhex(p)) for p in c["parents"]) if c["parents"] else ".",
-                   "." if legacy else ex, ex if legacy else "-"])]
+                   enc_headers(attr), "-" if meta is None else enc_headers(meta), enc_opt(_raw_hex(c, ires))])]
     if "manifest" in ires:
         r.append("pcommit " + hx(bytes.fromhex(ires["manifest"])))
     return r
@@ -212,10 +526,24 @@ def oracle(c, ires, mres):
         return "extra headers as attribute vs inside legacy metadata give different ids"
     if ires["id_from_dict"] != ires["id"]:
         return "id differs between constructor and from_dict"
-    if ires["extra_attr"] != c["extra"] or ires["meta_has_extra"]:
+    attr, meta = _md_plan(c)
+    both = bool(attr) and meta is not None       # both routes at once: the attribute decides, the metadata keeps its key
+    if ires["extra_attr"] != c["extra"] or ires["meta_has_extra"] != both:
         return "after construction the extra headers are not (only) in the attribute"
     if ires["swhid"] != "swh:1:rev:" + ires["id"]:
         return "swhid() wrong"
+    for k, v in ires.get("same_id", {}).items():
+        if v != ires["id"]:
+            return "the id differs on the route '%s': %s" % (k, v[:60])
+    for k, v in ires.get("same_manifest", {}).items():
+        if v != ires["manifest"]:
+            return "the commit object differs on the route '%s': %s" % (k, v[:80])
+    if ires.get("notes"):
+        return ires["notes"][0]
+    if "raw_id" in ires:
+        raw = _raw_hex(c, ires)
+        if ires["raw_id"] != hashlib.sha1(bytes.fromhex(raw)).hexdigest():
+            return "the id of a revision carrying a raw manifest is not the SHA-1 of that manifest: " + ires["raw_id"]
     got = mres.get("parsed_impl_manifest", "none")
     want = [c["directory"].encode(), [p.encode() for p in c["parents"] if p],
             None if c["author"] is None else author_line_spec(bytes.fromhex(c["author"]), c["date"]),
@@ -246,22 +574,40 @@ def compare(c, ires, mres):
             "implementation raised %s, model says %s" % (ires["error"], mres["rev"][:40])
     if not mres["rev"].startswith("ok "):
         return "implementation accepted, model says " + mres["rev"]
-    _, man, sha, extra_after, wf, man_after = mres["rev"].split(" ")
+    _, man, sha, extra_after, wf, man_after, meta_after, idhash = mres["rev"].split(" ")
     if man != hx(bytes.fromhex(ires["manifest"])):
         return "manifest bytes differ between model and implementation"
     if sha != ires["id"]:
         return "id differs from the model's SHA-1 of the manifest"
     if extra_after != enc_headers(ires["extra_attr"]):
         return "extra_headers attribute after construction differs from the model's post_init"
+    if meta_after != ("-" if ires.get("meta_extra") is None else enc_headers(ires["meta_extra"])):
+        return "metadata['extra_headers'] after construction differs from the model's post_init"
     if man_after != man:
         return "MODEL: post_init changes the manifest (model bug)"
+    if (sha if idhash == "=" else idhash) != ires.get("raw_id", ires["id"]):
+        return "id (raw manifest first) differs from the model's rev_compute_hash"
     return None
 
 
 def shrink(c):
+    for k in ("id_mode", "raw", "evolve", "decoy", "share", "pf", "dl"):
+        if c.get(k) is not None:
+            yield {x: y for x, y in c.items() if x != k}
+    for g in (0, 1, 2):
+        if c.get("grp") is None:
+            yield dict(c, grp=g)
+    if c.get("hdr_shape", "tt") != "tt":
+        yield dict(c, hdr_shape="tt")
+    if c.get("vmd"):
+        yield dict(c, vmd=0)
     for k in ("message", "author", "committer", "date", "committer_date"):
         if c[k] is not None and not (k == "author" and c["date"] is not None) and not (k == "committer" and c["committer_date"] is not None):
             yield dict(c, **{k: None})
+    if len(c["parents"]) > 8:
+        yield dict(c, parents=c["parents"][:len(c["parents"]) // 2])
+    if len(c["extra"]) > 8:
+        yield dict(c, extra=c["extra"][:len(c["extra"]) // 2])
     for i in range(len(c["parents"])):
         yield dict(c, parents=c["parents"][:i] + c["parents"][i + 1:])
     for i in range(len(c["extra"])):
@@ -272,10 +618,17 @@ def shrink(c):
         if c[k]:
             b = bytes.fromhex(c[k])
             yield dict(c, **{k: b[:len(b) // 2].hex()})
+            yield dict(c, **{k: b[len(b) // 2:].hex()})
     for i, (k, v) in enumerate(c["extra"]):
         if v:
             b = bytes.fromhex(v)
             yield dict(c, extra=c["extra"][:i] + [[k, b[:len(b) // 2].hex()]] + c["extra"][i + 1:])
+            yield dict(c, extra=c["extra"][:i] + [[k, b[len(b) // 2:].hex()]] + c["extra"][i + 1:])
+    for k in ("date", "committer_date"):
+        if c[k] is not None and c[k] != [0, 0, b"+0000".hex()]:
+            yield dict(c, **{k: [0, c[k][1], c[k][2]]})
+            yield dict(c, **{k: [c[k][0], 0, c[k][2]]})
+            yield dict(c, **{k: [c[k][0], c[k][1], b"+0000".hex()]})
 
 
 # functions of /repo whose executed-line coverage by this run is reported in the evidence
@@ -351,11 +704,12 @@ def pre_checks(ctx):
 
 
 def coq_cases(cases):
-    """revision_valid / rev_manifest / post_init / wf_extra (+ Sha1.sha1 of the manifest) evaluated by vm_compute inside
-    Coq vs the extracted driver (extraction cross-check)"""
+    """revision_valid / rev_manifest / post_init / wf_extra / rev_compute_hash (+ Sha1.sha1 of the manifest) evaluated by
+    vm_compute inside Coq vs the extracted driver (extraction cross-check)"""
     from . import core
     def size(c):
-        return sum(len(v) for v in _vals(c)) + sum(len(k) // 2 for k, _ in c["extra"]) + 20 * len(c["parents"])
+        return (sum(len(v) for v in _vals(c)) + sum(len(k) // 2 for k, _ in c["extra"]) + 20 * len(c["parents"])
+                + sum(len(k + v) // 2 for k, v in (c.get("decoy") or [])) + len(c.get("raw") or "") // 2)
     cases[:] = [c for c in cases if size(c) <= 300]      # in place: the evidence's `n` is the number evaluated
     def nl(h):
         return "[" + "; ".join("%d" % b for b in bytes.fromhex(h)) + "]%N"
@@ -368,29 +722,33 @@ def coq_cases(cases):
     def hdrs(hs):
         return "[" + "; ".join("(%s, %s)" % (nl(k), nl(v)) for k, v in hs) + "]"
     def rev(c):
-        legacy = c["legacy"] and c["extra"]
+        attr, meta = _md_plan(c)
         return ("{| v_message := %s; v_author := %s; v_committer := %s; v_date := %s; v_committer_date := %s; v_type := RtGit; "
                 "v_directory := %s; v_synthetic := false; v_meta_extra := %s; v_meta_other := []; v_parents := [%s]; "
-                "v_extra_headers := %s; v_raw_manifest := None |}"
+                "v_extra_headers := %s; v_raw_manifest := %s |}"
                 % (opt(c["message"]), opt(c["author"], person), opt(c["committer"], person), opt(c["date"], date),
-                   opt(c["committer_date"], date), nl(c["directory"]), "(Some %s)" % hdrs(c["extra"]) if legacy else "None",
-                   "; ".join(nl(p) for p in c["parents"]), hdrs([] if legacy else c["extra"])))
+                   opt(c["committer_date"], date), nl(c["directory"]), "None" if meta is None else "(Some %s)" % hdrs(meta),
+                   "; ".join(nl(p) for p in c["parents"]), hdrs(attr), opt(_raw_hex(c, {}))))
     src = ("From Coq Require Import List NArith ZArith.\nFrom SWH.lib Require Import Bytes Sha1.\nFrom SWH.model Require Import Time Rel Rev.\n"
            "Import ListNotations.\n" + core.COQ_CHECKSUM +
            "\nDefinition flat (hs : list (list N * list N)) : list N := concat (map (fun h => fst h ++ [256%N] ++ snd h ++ [257%N]) hs).\n"
            "Definition cases : list revision := [" + ";\n ".join(rev(c) for c in cases) + "].\n"
            "Eval vm_compute in map (fun r => if revision_valid r then let m := rev_manifest r in "
            "cksum (m ++ sha1 m ++ flat (v_extra_headers (post_init r)) ++ [if wf_extra (effective_extra r) then 1%N else 0%N] "
-           "++ rev_manifest (post_init r)) else 1%N) cases.\n")
+           "++ rev_manifest (post_init r) ++ match v_meta_extra (post_init r) with None => [258%N] | Some l => 259%N :: flat l end "
+           "++ rev_compute_hash sha1 r) else 1%N) cases.\n")
     resp = core.run_driver(ID, [requests(c, {})[0] for c in cases])
     exp = []
+    def flat(hs):
+        out = []
+        for k, v in hs:
+            out += list(k) + [256] + list(v) + [257]
+        return out
     for r in resp:
         w = r.split(" ")
         if w[0] != "ok":
             exp.append(1 if r == "err ValueError" else 3)
             continue
-        flat = []
-        for k, v in _dec_headers(w[3]):
-            flat += list(k) + [256] + list(v) + [257]
-        exp.append(core.py_cksum(list(unhx(w[1])) + list(unhx(w[2])) + flat + [int(w[4])] + list(unhx(w[5]))))
+        exp.append(core.py_cksum(list(unhx(w[1])) + list(unhx(w[2])) + flat(_dec_headers(w[3])) + [int(w[4])] + list(unhx(w[5]))
+                                 + ([258] if w[6] == "-" else [259] + flat(_dec_headers(w[6]))) + list(unhx(w[2] if w[7] == "=" else w[7]))))
     return src, exp
